@@ -54,6 +54,8 @@ def decode(data: bytes) -> dict:
             step: Dict[str, Any] = {"op": "put", "n": nput}
             if d.p(0.35):
                 step["kinds"] = [d.i(0, len(ITEM_KINDS) - 1) for _ in range(nput)]
+            if d.p(0.25):
+                step["nowait"] = True
             prog["steps"].append(step)
         elif r < 42:
             body = []
@@ -287,6 +289,15 @@ class QRun:
                     item = make_item(kinds[j] if j < len(kinds) else 0, self.next_item)
                     self.next_item += 1
                     self.items_put.append(item)
+                    if st_.get("nowait"):
+                        # put_nowait() whatever the state of the queue: a refusal (QueueFull) puts nothing and owes nothing
+                        try:
+                            self.q.put_nowait(item)
+                            self.puts += 1
+                        except asyncio.QueueFull:
+                            self.items_put.pop()
+                            self.labels.add("put:refused-full")
+                        continue
                     if not self.q.full():
                         self.q.put_nowait(item)
                         self.puts += 1
@@ -406,13 +417,28 @@ def sweep_cases(tier: str) -> List[dict]:
                         steps = [a, b] if put_first else [b, {"op": "tick", "k": 1}, a]
                         steps += [{"op": "joiner"}, {"op": "settle"}, {"op": "put", "n": 1, "kinds": [kind]}, {"op": "agen", "how": "aclose"}, {"op": "settle"}]
                         cases.append({"maxsize": maxsize, "steps": steps})
+    # put_nowait() refused on a full queue before / between / after the ordinary traffic
+    for maxsize in (1, 2):
+        for pre in (0, 1, 2, 3):
+            for ncons in (0, 1, 2):
+                for body in ([], [["wait"]]):
+                    for t in (0, 1, 2):
+                        steps = [{"op": "put", "n": pre, "nowait": True}] if pre else []
+                        steps.append({"op": "put", "n": 2, "nowait": True})
+                        if ncons:
+                            steps.append({"op": "consumer", "body": body, "end": "ret", "n": ncons})
+                        if t:
+                            steps.append({"op": "tick", "k": t})
+                        steps += [{"op": "put", "n": 2, "nowait": True}, {"op": "joiner"}, {"op": "gate", "k": 0}, {"op": "settle"},
+                                  {"op": "consumer", "body": [], "end": "ret", "n": 3}, {"op": "settle"}]
+                        cases.append({"maxsize": maxsize, "steps": steps})
     return cases
 
 
 class C20Engine(Engine):
     pid = "C20"
     rule = ("programs over put / consumer('async with queue as item' with scripted body: yield, gated wait, return or raise) / cancel "
-            "(a consumer waiting for an item, inside its body, or any) / join() waiter / gate / tick, queue maxsize in {0,1,2,3}, items that are "
+            "(incl. put_nowait() refused on a full queue) / (a consumer waiting for an item, inside its body, or any) / join() waiter / gate / tick, queue maxsize in {0,1,2,3}, items that are "
             "serial numbers or awkward values (None, 0, False, '', (), a fresh list, a falsy unhashable object equal to everything, an exception "
             "instance, Ellipsis); plus an "
             "enumerated sweep of a cancellation at every tick of small scenarios. Oracle: exits<=entries<=puts, no ValueError from "
